@@ -112,7 +112,12 @@ pub struct CaseResult {
 }
 
 pub fn run_case(case: &Case, keep_log: bool) -> CaseResult {
-    let mut e = match Engine::new(&case.setup) {
+    run_case_for(case, keep_log, None)
+}
+
+/// With `wanted`, only comparisons of that property end the history (see Engine::wanted).
+pub fn run_case_for(case: &Case, keep_log: bool, wanted: Option<&'static str>) -> CaseResult {
+    let mut e = match Engine::new_for(&case.setup, wanted) {
         Ok(e) => e,
         Err(msg) if msg.starts_with("benign:") => {
             let mut stats = Stats::default();
@@ -132,7 +137,19 @@ pub fn run_case(case: &Case, keep_log: bool) -> CaseResult {
         if e.viol.is_some() {
             break;
         }
-        e.run_op(op);
+        if e.first_foreign.is_some() {
+            // model and code have diverged under another property: the harness may hit states it does not
+            // expect; a harness panic here only ends the history
+            let r = std::panic::catch_unwind(std::panic::AssertUnwindSafe(|| e.run_op(op)));
+            if r.is_err() {
+                break;
+            }
+        } else {
+            e.run_op(op);
+        }
+    }
+    if e.first_foreign.is_some() {
+        e.stats.bump("foreign_divergence");
     }
     CaseResult { stats: e.stats, viol: e.viol, log: e.log }
 }
@@ -222,15 +239,15 @@ pub fn run_histories(
         seed,
         salt,
         |case: &Case, agg: &mut Agg| {
-            let r = run_case(case, false);
-            match &r.viol {
-                Some(v) if v.tags.contains(&prop) => {
-                    return Err(format!("step {}: {}", v.step, v.msg));
-                }
-                Some(_) => agg.foreign_divergences += 1,
-                None => {}
+            let r = run_case_for(case, false, Some(prop));
+            if let Some(v) = &r.viol {
+                return Err(format!("step {}: {}", v.step, v.msg));
             }
-            agg.add_stats(&r.stats, r.viol.is_none() && nontrivial(&r.stats));
+            let foreign = r.stats.get("foreign_divergence") > 0;
+            if foreign {
+                agg.foreign_divergences += 1;
+            }
+            agg.add_stats(&r.stats, !foreign && nontrivial(&r.stats));
             Ok(())
         },
     )
